@@ -35,6 +35,8 @@ EXTENDS Integers, Sequences, SequencesExt, FiniteSets, TLC, Json
 
 CONSTANTS Level,          \* 1: small value alphabet, 2: large
           Shard, NShards, \* this process handles the cases with index % NShards = Shard
+          Fixed,          \* subset of {"emptylost", "namedenum", "uint64", "dupkey"}: defect paths repaired in the tree
+                          \* under test (the harness probes the real code)
           OutFile,        \* ndjson export of the round-trip cases ("" = none)
           JsonFile        \* ndjson export of the JSON cases ("" = none; only shard 0 writes it)
 
@@ -260,6 +262,8 @@ ElemOf(et, kid) == LET u == Under(et) IN
   IF u.k # "union" THEN [t |-> et, v |-> kid, seen |-> {}]
   ELSE IF kid.k = "null" THEN [t |-> NullT, v |-> kid, seen |-> {}]
   ELSE [t |-> kid.mt, v |-> kid.kid, seen |-> {kid.mt}]
+KnownUnionTaint(et, kid, known) ==
+  IF known /\ Under(et).k = "union" /\ kid.k # "null" /\ ~Implied(kid.mt) THEN {"knownunion"} ELSE {}
 \* elemHelper.needsDecoration
 NeedsDecoration(et, seen) == LET u == Under(et) IN
   u.k = "union" /\ (et.k = "named" \/ Cardinality(seen) < Len(u.ts))
@@ -273,8 +277,27 @@ NeedsDecoration(et, seen) == LET u == Under(et) IN
 \*  "afterfull"    a container whose union elements do not show every member gets its full type as a decorator
 \*                 (needsDecoration) and, being of a named type, a second decorator after it: (=name) -- for which
 \*                 the parser builds DefValue{Of: nil} -- or (name), which typeCheck rejects against the first
+\*  "refbeforedef" the full type a container gets (needsDecoration) refers by name to a type that one of its
+\*                 elements defined ((=name) inside, (name) in the decorator after it): the reader resolves the
+\*                 decorator before it looks at the elements
+\*  "knownunion"   inside a value whose type name is known, the elements of an array / set / map of unions are
+\*                 written without their member type; the reader can only guess it from the literal
 \*  "tvbinds"      a type value mentions a type name that is bound to another type: the reader rebinds the
 \*                 name (convertType enters typedefs), the writer does not know
+RECURSIVE RefsIn(_)
+RefsIn(ty) ==
+  CASE ty.k = "ref"  -> {ty.n}
+    [] ty.k = "tdef" -> RefsIn(ty.ty)
+    [] ty.k = "rec"  -> UNION {RefsIn(ty.fs[i].t) : i \in 1..Len(ty.fs)}
+    [] ty.k \in {"arr", "set"} -> RefsIn(ty.e)
+    [] ty.k = "map"  -> RefsIn(ty.kt) \cup RefsIn(ty.vt)
+    [] ty.k = "union" -> UNION {RefsIn(ty.ts[i]) : i \in 1..Len(ty.ts)}
+    [] ty.k = "err"  -> RefsIn(ty.t)
+    [] OTHER -> {}
+\* d: the decoration of a container written after its elements; before / after: the writer's state around the elements
+RefBeforeDef(d, before, after) ==
+  IF d.ds # <<>> /\ d.ds[1].k = "cast" /\ \E n \in RefsIn(d.ds[1].ty) : before.td[n] # after.td[n]
+  THEN [ds |-> d.ds, s |-> TaintF(d.s, {"refbeforedef"})] ELSE d
 AfterFull(typ, decs) ==
   IF \E i \in 2..Len(decs) : decs[i].k = "def" \/ (decs[i].k = "cast" /\ decs[i - 1].k = "cast" /\ Under(typ).k # "union")
   THEN {"afterfull"} ELSE {}
@@ -305,11 +328,11 @@ FV(st, persist, typ, v, pk, pi, dec) ==
        IN [any |-> APrim("null"), decs |-> d.ds, s |-> d.s, empty |-> FALSE]
   ELSE
   LET st1 == TaintF(st, KnownTaint(st, persist, typ, v)
-                        \cup (IF typ.k = "named" /\ Under(typ).k = "enum" THEN {"namedenum"} ELSE {}))
+                        \cup (IF typ.k = "named" /\ Under(typ).k = "enum" /\ "namedenum" \notin Fixed THEN {"namedenum"} ELSE {}))
       body ==
         CASE typ.k = "named" ->
                LET r == FV(st1, persist, typ.t, v, known, pi, FALSE) IN
-               [any |-> r.any, decs |-> r.decs, s |-> r.s, empty |-> FALSE, emptyReal |-> r.empty]
+               [any |-> r.any, decs |-> r.decs, s |-> r.s, empty |-> "emptylost" \in Fixed /\ r.empty, emptyReal |-> r.empty]
           [] typ.k = "prim" ->
                IF typ.p = "type" THEN [any |-> ATv(Standalone(v.ty, EmptyTab).ty), decs |-> <<>>, s |-> TaintF(st1, TvTaint(st1, persist, v.ty)), empty |-> FALSE, emptyReal |-> FALSE]
                ELSE [any |-> APrim(LitOf(typ.p)), decs |-> <<>>, s |-> st1, empty |-> FALSE, emptyReal |-> FALSE]
@@ -321,7 +344,7 @@ FV(st, persist, typ, v, pk, pi, dec) ==
                IF v.kids = <<>> THEN [any |-> ASeq(typ.k, <<>>), decs |-> <<>>, s |-> st1, empty |-> TRUE, emptyReal |-> TRUE]
                ELSE LET r == FElems(st1, persist, typ.e, v.kids, 1, known, pi, <<>>, {})
                         \* not all union members seen: the container gets its full type (decorate(val.Type(), false, true))
-                        d == IF NeedsDecoration(typ.e, r.seen) THEN Decorate(r.s, persist, typ, FALSE, TRUE) ELSE NoDec(r.s)
+                        d == IF NeedsDecoration(typ.e, r.seen) THEN RefBeforeDef(Decorate(r.s, persist, typ, FALSE, TRUE), st1, r.s) ELSE NoDec(r.s)
                     IN [any |-> ASeq(typ.k, r.es), decs |-> d.ds, s |-> d.s, empty |-> FALSE, emptyReal |-> FALSE]
           [] typ.k = "union" ->
                \* formatUnion: the member is written with known = false, parentImplied = true, decorate = true
@@ -330,7 +353,7 @@ FV(st, persist, typ, v, pk, pi, dec) ==
           [] typ.k = "map" ->
                LET r == FEntries(st1, persist, typ, v.ents, 1, known, pi, <<>>, [k |-> {}, v |-> {}])
                    need == NeedsDecoration(typ.kt, r.seen.k) \/ NeedsDecoration(typ.vt, r.seen.v)
-                   d == IF need THEN Decorate(r.s, persist, typ, FALSE, TRUE) ELSE NoDec(r.s)
+                   d == IF need THEN RefBeforeDef(Decorate(r.s, persist, typ, FALSE, TRUE), st1, r.s) ELSE NoDec(r.s)
                IN [any |-> AMap(r.ents), decs |-> d.ds, s |-> d.s, empty |-> v.ents = <<>>, emptyReal |-> v.ents = <<>>]
           [] typ.k = "enum" -> [any |-> AEnum(v.sym), decs |-> <<>>, s |-> st1, empty |-> FALSE, emptyReal |-> FALSE]
           [] typ.k = "err" ->
@@ -349,14 +372,14 @@ FFields(st, persist, fs, kids, i, known, pi, acc) ==
 FElems(st, persist, et, kids, i, known, pi, acc, seen) ==
   IF i > Len(kids) THEN [es |-> acc, s |-> st, seen |-> seen]
   ELSE LET e == ElemOf(et, kids[i])
-           r == FV(st, persist, e.t, e.v, known, pi, TRUE)
+           r == FV(TaintF(st, KnownUnionTaint(et, kids[i], known)), persist, e.t, e.v, known, pi, TRUE)
        IN FElems(r.s, persist, et, kids, i + 1, known, pi, Append(acc, Node(r.any, r.decs)), seen \cup e.seen)
 FEntries(st, persist, mt, ents, i, known, pi, acc, seen) ==
   IF i > Len(ents) THEN [ents |-> acc, s |-> st, seen |-> seen]
   ELSE LET ke == ElemOf(mt.kt, ents[i].key)
-           rk == FV(st, persist, ke.t, ke.v, known, pi, TRUE)
+           rk == FV(TaintF(st, KnownUnionTaint(mt.kt, ents[i].key, known)), persist, ke.t, ke.v, known, pi, TRUE)
            ve == ElemOf(mt.vt, ents[i].val)
-           rv == FV(rk.s, persist, ve.t, ve.v, known, pi, TRUE)
+           rv == FV(TaintF(rk.s, KnownUnionTaint(mt.vt, ents[i].val, known)), persist, ve.t, ve.v, known, pi, TRUE)
        IN FEntries(rv.s, persist, mt, ents, i + 1, known, pi,
                    Append(acc, [key |-> Node(rk.any, rk.decs), val |-> Node(rv.any, rv.decs)]),
                    [k |-> seen.k \cup ke.seen, v |-> seen.v \cup ve.seen])
@@ -366,7 +389,7 @@ FormatTop(st, persist, scope, val) ==
   LET st0 == IF scope = "value" THEN FState(EmptyTab, st.pm, st.x) ELSE st
       \* formatValueAndDecorate: decorate(typ, false, bytes == nil)
       r == FV(st0, persist, val.t, val.v, HasName(st0, persist, val.t), Implied(val.t), FALSE)
-      d == DecorateE(r.s, persist, val.t, FALSE, val.v.k = "null", val.v.k = "null" \/ r.empty)
+      d == DecorateE(r.s, persist, val.t, FALSE, val.v.k = "null" \/ ("emptylost" \in Fixed /\ r.empty), val.v.k = "null" \/ r.empty)
       decs == r.decs \o d.ds
       s2 == TaintF(d.s, AfterFull(val.t, decs))
   IN [node |-> Node(r.any, decs), s |-> s2]
@@ -494,7 +517,9 @@ AAny(s, any, cast) ==
   ELSE
   CASE any.k = "prim" ->
          \* convertPrimitive
-         IF cast = NONE THEN OKV(IF any.lit = "null" THEN Val(NullT, VNull) ELSE Val(P(any.lit), VPrim), s)
+         IF cast = NONE THEN OKV(IF any.lit = "null" THEN Val(NullT, VNull)
+                                 ELSE IF any.lit = "uint64" /\ "uint64" \in Fixed THEN Val(F64, VPrim)   \* repaired: as in JSON
+                                 ELSE Val(P(any.lit), VPrim), s)
          ELSE IF ~CastOK(any.lit, cast) THEN FAIL
          ELSE OKV(Val(cast, IF any.lit = "null" THEN VNull ELSE VPrim), s)
     [] any.k = "rec" ->
@@ -535,7 +560,7 @@ AAny(s, any, cast) ==
          \* convertEnum needs an enum decorator; zson.Build's buildEnum then asserts enum.Type.(*zed.TypeEnum),
          \* which fails for a NAMED enum type: F-C02 defect path "namedenum"
          IF cast = NONE \/ Under(cast).k # "enum" \/ ~SeqHas(Under(cast).syms, any.sym) THEN FAIL
-         ELSE IF cast.k # "enum" THEN FAIL
+         ELSE IF cast.k # "enum" /\ "namedenum" \notin Fixed THEN FAIL
          ELSE OKV(Val(cast, VEnum(any.sym)), s)
     [] any.k = "tv" ->
          IF cast # NONE /\ Under(cast) # TypeT THEN FAIL
@@ -583,13 +608,14 @@ TypesSmall ==
    N1, N2, NU, M1, Named("N", RU), Named("N", Arr(UIS)), Named("N", UIS), Named("N", EN),
    Named("N", Arr(N1)), Named("M", Rec(<<Fld("a", N1)>>)),
    Rec(<<Fld("a", N1), Fld("b", N1)>>), Rec(<<Fld("a", N1), Fld("b", N2)>>), Arr(N1), Rec(<<Fld("a", UIS)>>),
-   Rec(<<Fld("a", TypeT), Fld("b", N1)>>), Err(Rec(<<Fld("a", N1)>>))}
+   Rec(<<Fld("a", TypeT), Fld("b", N1)>>), Err(Rec(<<Fld("a", N1)>>)),
+   Arr(Uni(<<N1, Str>>)), Named("N", Arr(UUS))}
 TypesLarge == TypesSmall \cup
   {F64, Rec(<<Fld("a", U8), Fld("b", I64)>>), Rec(<<Fld("a", RU)>>), Arr(RU), Arr(Arr(U8)), SetT(U8), SetT(UIS),
    MapT(U8, Str), MapT(UUS, I64), MapT(Str, N1), Uni(<<RI, RU>>), Uni(<<Arr(I64), Arr(U8)>>), Uni(<<N1, M1>>),
-   Named("N", Arr(UUS)), Named("N", MapT(Str, UIS)), Named("N", Err(U8)), Named("M", Arr(Named("N", UIS))),
+   Named("N", MapT(Str, UIS)), Named("N", Err(U8)), Named("M", Arr(Named("N", UIS))),
    Named("N", Rec(<<Fld("a", M1)>>)), Rec(<<Fld("a", NU), Fld("b", N1)>>), Rec(<<Fld("a", Named("N", RU)), Fld("b", Named("N", RU))>>),
-   Arr(Uni(<<N1, Str>>)), Arr(Named("N", UIS)), Err(N1), Err(UIS), Rec(<<Fld("a", EN)>>), Arr(EN), Uni(<<EN, Str>>),
+   Arr(Named("N", UIS)), Err(N1), Err(UIS), Rec(<<Fld("a", EN)>>), Arr(EN), Uni(<<EN, Str>>),
    Rec(<<Fld("a", Arr(UIS)), Fld("b", Arr(UIS))>>)}
 Types == IF Level >= 2 THEN TypesLarge ELSE TypesSmall
 \* the types a type value may denote
@@ -727,7 +753,7 @@ JNode(j) ==
     [] j.k = "bool" -> Node(APrim("bool"), <<>>)
     [] j.k = "null" -> Node(APrim("null"), <<>>)
     [] j.k = "arr"  -> Node(ASeq("arr", [i \in 1..Len(j.es) |-> JNode(j.es[i])]), <<>>)
-    [] j.k = "obj"  -> LET fs == FirstWins(j.fs) IN
+    [] j.k = "obj"  -> LET fs == IF "dupkey" \in Fixed THEN LastWins(j.fs) ELSE FirstWins(j.fs) IN
                        Node(ARec([i \in 1..Len(fs) |-> [n |-> fs[i].n, v |-> JNode(fs[i].v)]]), <<>>)
 ZsonOfJson(j) == AV(AState(EmptyTab, EmptyTab, {}), ToAST(JNode(j)), NONE)
 
@@ -735,9 +761,9 @@ ZsonOfJson(j) == AV(AState(EmptyTab, EmptyTab, {}), ToAST(JNode(j)), NONE)
 \* "dupkey" of members with the same name ZSON keeps the first, JSON the last
 RECURSIVE JTaint(_)
 JTaint(j) ==
-  CASE j.k = "num" -> IF j.c = "uint" THEN {"uint64"} ELSE {}
+  CASE j.k = "num" -> IF j.c = "uint" /\ "uint64" \notin Fixed THEN {"uint64"} ELSE {}
     [] j.k = "arr" -> UNION {JTaint(j.es[i]) : i \in 1..Len(j.es)}
-    [] j.k = "obj" -> (IF \E a, b \in 1..Len(j.fs) : a # b /\ j.fs[a].n = j.fs[b].n THEN {"dupkey"} ELSE {})
+    [] j.k = "obj" -> (IF "dupkey" \notin Fixed /\ \E a, b \in 1..Len(j.fs) : a # b /\ j.fs[a].n = j.fs[b].n THEN {"dupkey"} ELSE {})
                       \cup UNION {JTaint(j.fs[i].v) : i \in 1..Len(j.fs)}
     [] OTHER -> {}
 
@@ -756,7 +782,9 @@ JDocs == IF Level >= 2 THEN JD2 \cup {JArr(<<x, y, z>>) : x \in JE2, y \in JE2, 
 
 JCase(j) == LET z == ZsonOfJson(j)  jv == JsonVal(j) IN
             [doc |-> j, json |-> jv, zson_ok |-> z.ok, zson |-> IF z.ok THEN z.v ELSE jv,
-             same |-> z.ok /\ z.v = jv, taint |-> SetToSeq(JTaint(j))]
+             \* primitives are opaque here: two members with one name hold different values in the rendered text,
+             \* so keeping the first or the last one is a different result even when the types agree
+             same |-> z.ok /\ z.v = jv /\ "dupkey" \notin JTaint(j), taint |-> SetToSeq(JTaint(j))]
 JResults == IF Shard # 0 THEN <<>> ELSE TLCEval(LET ds == SetToSeq(JDocs) IN [i \in 1..Len(ds) |-> JCase(ds[i])])
 CheckJson(Js) ==
   /\ Shard # 0 \/ PrintT(<<"json cases", Len(Js), "differing", Cardinality({i \in 1..Len(Js) : ~Js[i].same})>>)
